@@ -1,7 +1,9 @@
 """C20 — numeric lifts, casts, approx equality are per-element; all feature sets build."""
 from ..run import Root, leaves, Ptr, Enum
+from fractions import Fraction
+from .. import alg
 from ..alg import C, sym, fn
-from ..sem import B, eq, as_bool
+from ..sem import B, eq, as_bool, as_rat
 from ..shapes import *
 from .. import featmat
 
@@ -190,6 +192,100 @@ def run(ctx):
             ctx.ob(key + '/paths', False, 'path structure: the analysed function has the expected (branch-free / enumerated) shape', w, 'analysable', str(e))
     ctx.floor('roots analysed', done, len(roots))
     mint_rule(ctx)
+    az_rule(ctx)
+
+
+def az_rule(ctx):
+    """az-style casts on vectors (feature `az`): per element by the scalar rule; checked_as is None exactly when an element fails;
+    the overflow flag of overflowing_as is the OR of the element flags"""
+    feats = ['std', 'az'] + [f for f in (QUICK_FEATURES if ctx.tier == 'quick' else ALL_FEATURES) if f != 'std']
+    kinds = vec_kinds(feats)
+    roots = []; meta = {}
+
+    def add(name, code, max_paths=80, **m):
+        roots.append(Root(name, code, max_paths=max_paths)); meta[name] = m
+    for K in kinds:
+        if vdim(K) > 8 and ctx.tier == 'quick': continue
+        VF = '%s<f32>' % K; VI = '%s<i32>' % K
+        for f, tr, mth in (('az', 'Cast', 'cast'), ('saturating_as', 'SaturatingCast', 'saturating_cast'), ('wrapping_as', 'WrappingCast', 'wrapping_cast'), ('unwrapped_as', 'UnwrappedCast', 'unwrapped_cast')):
+            add('r_az_%s_%s' % (f, K), 'pub fn r_az_%s_%s(a: %s) -> %s { a.%s::<i32>() }' % (f, K, VF, VI, f), kind='plain', K=K, tr=tr, mth=mth)
+            add('r_azt_%s_%s' % (f, K), 'pub fn r_azt_%s_%s(a: %s) -> %s { az::%s::%s(a) }' % (f, K, VF, VI, tr, mth), kind='plain', K=K, tr=tr, mth=mth)
+        add('r_az_checked_as_%s' % K, 'pub fn r_az_checked_as_%s(a: %s) -> Option<%s> { a.checked_as::<i32>() }' % (K, VF, VI), kind='checked', K=K, tr='CheckedCast', mth='checked_cast')
+        add('r_azt_checked_as_%s' % K, 'pub fn r_azt_checked_as_%s(a: %s) -> Option<%s> { az::CheckedCast::checked_cast(a) }' % (K, VF, VI), kind='checked', K=K, tr='CheckedCast', mth='checked_cast')
+        add('r_az_overflowing_as_%s' % K, 'pub fn r_az_overflowing_as_%s(a: %s) -> (%s, bool) { a.overflowing_as::<i32>() }' % (K, VF, VI), kind='ovf', K=K, tr='OverflowingCast', mth='overflowing_cast')
+        add('r_azt_overflowing_as_%s' % K, 'pub fn r_azt_overflowing_as_%s(a: %s) -> (%s, bool) { az::OverflowingCast::overflowing_cast(a) }' % (K, VF, VI), kind='ovf', K=K, tr='OverflowingCast', mth='overflowing_cast')
+    sc = ctx.scan(roots, feats, extra_deps='az = "1"', extra_prelude='extern crate az;\n')
+    if sc.compile_error: return
+    done = 0
+    for r in roots:
+        rs = sc.get(r.name); m = meta[r.name]
+        if rs is None or not rs.ok: continue
+        done += 1
+        key = 'c20/' + r.name[2:]; w = r.code; K = m['K']; a = vsyms('a0', K); n = len(a)
+        atom = lambda x: fn('%s::%s<f32,i32>' % (m['tr'], m['mth']), x)
+        try:
+            if m['kind'] == 'plain':
+                vec_eq(ctx, key, rs.only().ret, [atom(x) for x in a], 'alg=: az cast converts each element by the scalar rule', w)
+            elif m['kind'] == 'checked':
+                rr = [atom(x) for x in a]
+                preds = [opt_pred(x) for x in rr]
+                all_or_none(ctx, key, rs, preds, 'paths: checked_as is None exactly when some element fails to convert', w, lambda p: isinstance(p.ret, Enum) and p.ret.var == 1)
+                for p in rs.paths:
+                    if p.out == 'ret' and isinstance(p.ret, Enum) and p.ret.var == 1:
+                        vec_eq(ctx, key + '/value', p.ret.fields[0], [opt_payload(x) for x in rr], 'alg=: element i is the converted a[i]', w)
+            elif m['kind'] == 'ovf':
+                rr = [atom(x) for x in a]
+                flags = set(); vals_ok = True
+                for p in rs.paths:
+                    if p.out != 'ret':
+                        ctx.ob(key + '/paths', False, 'paths', w, 'returns', p.out); continue
+                    val, flag = p.ret
+                    vals_ok &= eqv_list(leaves(val), [fn('ret:0', x) for x in rr])
+                # the flag: true exactly when some element flag is true (short-circuit || gives one path per first true element + all-false)
+                # the flag as a Boolean function of the element flags: evaluated on assignments of the element flags
+                # (all 2^n for n <= 8; all-false, every single, every pair, all-true beyond), exactly one path must be selected
+                fatoms = [atom_id(fn('ret:1', x)) for x in rr]
+                bad = None; nass = 0
+                for asg in flag_assignments(n):
+                    nass += 1
+                    env = {fa: Fraction(1 if b else 0) for fa, b in zip(fatoms, asg)}
+                    sel = [p for p in rs.paths if p.out == 'ret' and all(c.eval(env) for c in p.conds)]
+                    if len(sel) != 1:
+                        bad = (asg, '%d paths selected' % len(sel)); break
+                    fl = sel[0].ret[1]
+                    got = fl.eval(env) if isinstance(fl, B) else (alg.evalf(fl, env) != 0)
+                    if bool(got) != any(asg):
+                        bad = (asg, 'flag %s' % got); break
+                ctx.ob(key + '/flag', bad is None, 'paths: the overflow flag is true exactly when some element flag is true (%s flag assignments)' % ('all 2^n' if n <= 8 else 'none/singles/pairs/all'), w,
+                       'OR of the element flags on %d assignments' % nass, 'element flags %s: %s' % (''.join('1' if b else '0' for b in bad[0]), bad[1]) if bad else '')
+                ctx.ob(key + '/value', vals_ok, 'alg=: wrapped value per element', w, [str(fn('ret:0', x)) for x in rr][:3], 'mismatch')
+        except AssertionError as e:
+            ctx.ob(key + '/paths', False, 'path structure', w, 'analysable', str(e))
+    ctx.floor('az cast roots analysed', done, 120 if ctx.tier == 'quick' else 156)
+
+
+def atom_id(r):
+    (m, c), = r.num.t.items()
+    assert r.is_poly() and c == 1 and len(m) == 1 and m[0][1] == 1, 'not a single atom: %s' % r
+    return m[0][0]
+
+
+def flag_assignments(n):
+    import itertools
+    if n <= 8:
+        for t in itertools.product((False, True), repeat=n): yield t
+        return
+    yield (False,) * n
+    yield (True,) * n
+    for i in range(n):
+        yield tuple(k == i for k in range(n))
+    for i in range(n):
+        for j in range(i + 1, n):
+            yield tuple(k in (i, j) for k in range(n))
+
+
+def eqv_list(a, b):
+    return len(a) == len(b) and all(x == y for x, y in zip(a, b))
 
 
 def mint_rule(ctx):
